@@ -114,6 +114,11 @@ M("C01", "revert-fix-early-exit-latch", "breaking",
    (P, DR, "        if self.response_sent:\n            return\n", ""),
    (P, SR, "        if not self.transport or self.response_sent:", "        if not self.transport:")],
   "W5:server.protocol:GeminiServerProtocol.data_received:write-after-close")
+M("C01", "revert-fix-strict-body-encode", "breaking",
+  [(P, SR, "body = response.body.encode(\"utf-8\", errors=\"replace\")", "body = response.body.encode(\"utf-8\")")],
+  "W7:server.protocol:GeminiServerProtocol._send_response:encode-may-escape")
+M("C01", "strict-body-encode-but-contained", "benign",
+  [(P, SR, "                body = response.body.encode(\"utf-8\", errors=\"replace\")\n", "                try:\n                    body = response.body.encode(\"utf-8\")\n                except UnicodeEncodeError:\n                    body = response.body.encode(\"utf-8\", errors=\"replace\")\n")])
 M("C01", "encode-after-header-write", "breaking",
   [(P, SR, "        self.transport.write(header)\n        if body:\n            self.transport.write(body)\n",
     "        self.transport.write(header)\n        if body:\n            self.transport.write(response.body.encode('utf-8') if isinstance(response.body, str) else body)\n")],
